@@ -206,6 +206,7 @@ def main(tier, seed):
     t0 = time.time()
     # ---- R3
     specs = kernel_specs(tier, seed)
+    lc.synthetic_env()
     outs = lc.pool_map(real_job, specs, 6, deadline=240.0 if quick else 600.0)
     cases, meta = [], {}
     for o in outs:
